@@ -14,7 +14,8 @@ from cpverif.observe import diff_paths, observation
 
 RULE = (
     "Rule-based state machine (Hypothesis stateful): the initial state is (chart, twin) parsed from one "
-    "generated chart text (0..3 tracks, multi-segment tempo map); rules are read-only operations with "
+    "generated chart text (0..3 tracks, multi-segment tempo map; a quarter of the charts have their tick "
+    "groups permuted over a single tempo, i.e. parse to tracks that are not in tick order); rules are read-only operations with "
     "generated arguments: notes_per_second in every argument form incl. failing ones and absent tracks; "
     "chart[instrument] for all 10 instruments and .get(difficulty) on the result; both tick-to-time "
     "queries (valid, negative, with valid and invalid hints); str/repr of chart, tracks and events; "
@@ -238,6 +239,14 @@ class Session:
             self.ctx.fail("assignment-rejected", f"{type(obj).__name__}.{attr} changed by a rejected "
                                                  f"assignment", self.rc())
 
+    def present_pairs(self):
+        out = []
+        for ii, inst in enumerate(self.insts):
+            for di, diff in enumerate(self.diffs):
+                if inst in self.obs_keys() and diff.name in self.obs_keys()[inst]:
+                    out.append((ii, di))
+        return out
+
     def obs_keys(self):
         if not hasattr(self, "_keys"):
             self._keys = {L.Instrument[i]: set(d) for i, d in self.obs0["track_keys"]}
@@ -264,6 +273,29 @@ class Session:
         if not eq:
             self.ctx.fail("twin-equality", f"after {self.ops[-1] if self.ops else 'parsing'}: chart != "
                                            f"identically parsed twin (observations equal)", self.rc())
+
+
+def _unsorted_variant(spec, draw):
+    spec = dict(spec)
+    first_b = next(it for it in spec["sync"] if it[1] == "B")
+    spec["sync"] = [[0, "TS", 4], [0, "B", first_b[2]]]
+    tracks = {}
+    for h, items in spec["tracks"].items():
+        groups: dict = {}
+        for it in items:
+            if it[1] == "N" and it[2] == 5:
+                continue            # no forced flags: a forced first note is a documented ValueError
+            groups.setdefault(it[0], []).append(it)
+        order = list(groups)
+        if len(order) > 1:
+            order = list(draw(st.permutations(order)))
+        tracks[h] = [it for t in order for it in groups[t]]
+    spec["tracks"] = tracks
+    ev = list(spec["events"])
+    if len(ev) > 1:
+        ev = list(draw(st.permutations(ev)))
+    spec["events"] = ev
+    return spec
 
 
 def check_history(ctx: Ctx, case) -> None:
@@ -296,10 +328,17 @@ def drive_machine(ctx: Ctx) -> None:
             self.s = None
 
         @initialize(c=G.chart_specs(max_segments=4, max_tracks=3, max_notes=8, max_events=3, max_ts=2,
-                                    max_anchors=1))
-        def setup(self, c):
+                                    max_anchors=1),
+                    unsorted=st.integers(0, 3), data=st.data())
+        def setup(self, c, unsorted, data):
             self.max_tick = c["max_tick"]
-            self.s = Session(ctx, c["spec"])
+            spec = c["spec"]
+            if unsorted == 0:
+                # a chart whose body lines are NOT in tick order is a chart too (it parses as long as the
+                # lookup hints cannot object, i.e. over a single tempo): tick groups are permuted
+                spec = _unsorted_variant(spec, data.draw)
+                ctx.classes["unsorted_chart"] += 1
+            self.s = Session(ctx, spec)
             ctx.current = self.s.rc()
             if self.s.chart is not None:
                 self.s.check()
@@ -310,16 +349,28 @@ def drive_machine(ctx: Ctx) -> None:
             self.s.apply(op)
             ctx.current = self.s.rc()
 
-        @rule(ii=st.integers(0, 9), di=st.integers(0, 3),
+        def _pair(self, ii, di, pick):
+            # two thirds of the track-addressed operations go to a track that exists (otherwise only
+            # 1 in 40 would), the rest to arbitrary -- mostly absent -- pairs
+            if self.s is not None and self.s.chart is not None and pick < 66:
+                present = self.s.present_pairs()
+                if present:
+                    return present[pick % len(present)]
+            return ii, di
+
+        @rule(ii=st.integers(0, 9), di=st.integers(0, 3), pick=st.integers(0, 99),
               form=st.sampled_from(["none", "tick", "tick_tick", "time", "time_time"]),
-              a=st.integers(0, 10 ** 6), b=st.integers(0, 10 ** 7))
-        def nps(self, ii, di, form, a, b):
+              a=st.one_of(st.integers(0, 2000), st.integers(0, 10 ** 6)),
+              b=st.one_of(st.integers(0, 10 ** 7), st.integers(0, 10 ** 9)))
+        def nps(self, ii, di, pick, form, a, b):
             if form.startswith("tick"):
                 a, b = min(a, self.max_tick), min(b, self.max_tick)
+            ii, di = self._pair(ii, di, pick)
             self._do(["nps", ii, di, form, a, b])
 
-        @rule(ii=st.integers(0, 9), di=st.integers(0, 3))
-        def getitem(self, ii, di):
+        @rule(ii=st.integers(0, 9), di=st.integers(0, 3), pick=st.integers(0, 99))
+        def getitem(self, ii, di, pick):
+            ii, di = self._pair(ii, di, pick)
             self._do(["getitem", ii, di])
 
         @rule(ii=st.integers(0, 9))
@@ -386,6 +437,11 @@ def fixed_cases(ctx: Ctx):
             ["nps", 0, 2, "none", 0, 0]]
     yield {"spec": spec1, "ops": ops}
     yield {"spec": spec2, "ops": ops}
+    spec3 = {"res": 192, "sync": [[0, "TS", 4], [0, "B", 120000]], "events": [[50, "b"], [10, "a"]],
+             "tracks": {"ExpertSingle": [[0, "N", 0, 0], [384, "N", 1, 40], [96, "N", 2, 0], [192, "N", 3, 500],
+                                         [300, "S", 2, 10], [100, "S", 2, 10]]}}
+    yield {"spec": spec3, "ops": ops + [["nps", 0, 3, "none", 0, 0], ["nps", 0, 3, "tick_tick", 0, 400],
+                                        ["nps", 0, 3, "time_time", 0, 5000000]]}
 
 
 PARTS: list[Part] = [
